@@ -267,6 +267,8 @@ static void digest_body(const char *tag) {
       out("\""); }
     /* stdio state of the caller's streams: orientation and buffering mode (settle in the warm-up calls when the library writes to them) */
     out(",\"stdio\":\"%d/%d/%d;%d/%d/%d\"", fwide(stdout, 0), (int)__flbf(stdout) != 0, ferror(stdout) != 0, fwide(stderr, 0), (int)__flbf(stderr) != 0, ferror(stderr) != 0);
+    /* text the calling program has written to its streams but not flushed yet: it is the program's (an exec discards it; a failed exec leaves it where it was) */
+    out(",\"stdio_pending\":\"%zu;%zu\"", __fpending(stdout), __fpending(stderr));
 #ifdef VERIF_HEAPTRACK
     out(",\"heap_live\":%ld,\"heap_bytes\":%ld", ht_live, ht_bytes);
 #endif
@@ -377,6 +379,60 @@ static void atfork_child_exec(void) {
     int before = R.calls; int r = execve(pth, av, environ);
     lean = sv_lean; snapshot_at_entry = sv_snap; want_digest = sv_dig;
     out("{\"atfork_child_call\":1,\"ret\":%d,\"reached_real_exec\":%d}\n", r, R.calls - before);
+}
+/* A string of n 'A' bytes (n a multiple of 2 MiB, e.g. 2^31) that costs 2 MiB of memory: one memfd chunk mapped over and over at consecutive
+   addresses, one anonymous zero page behind it for the terminating NUL.  The kernel would refuse such an exec (E2BIG) - but the record is made first. */
+#include <sys/mman.h>
+static char *huge_string(size_t n) {
+    const size_t chunk = 2u << 20; int fd = (int)syscall(SYS_memfd_create, "huge", 0); if (fd < 0) { perror("memfd_create"); exit(3); }
+    if (ftruncate(fd, chunk)) { perror("ftruncate"); exit(3); }
+    char *c = mmap(NULL, chunk, PROT_READ | PROT_WRITE, MAP_SHARED, fd, 0); if (c == MAP_FAILED) { perror("mmap"); exit(3); } memset(c, 'A', chunk); munmap(c, chunk);
+    char *base = mmap(NULL, n + 4096, PROT_NONE, MAP_PRIVATE | MAP_ANONYMOUS | MAP_NORESERVE, -1, 0); if (base == MAP_FAILED) { perror("mmap reserve"); exit(3); }
+    for (size_t off = 0; off < n; off += chunk) if (mmap(base + off, chunk, PROT_READ, MAP_SHARED | MAP_FIXED, fd, 0) == MAP_FAILED) { perror("mmap chunk"); exit(3); }
+    if (mmap(base + n, 4096, PROT_READ, MAP_PRIVATE | MAP_ANONYMOUS | MAP_FIXED, -1, 0) == MAP_FAILED) { perror("mmap tail"); exit(3); }
+    close(fd); return base;
+}
+/* hugecall <variant>: an exec whose strings reach or cross 2^31 bytes.  mid: argv = {first, H(2^31), last}; sum: argv = {first, H'(2^31 - 4)} (every string
+   below 2^31, the joined text not); path: the path itself is H(2^31); nullargv: path H with a NULL argument vector */
+static void do_hugecall(const char *variant) {
+    static char *H; if (!H) H = huge_string((size_t)1 << 31);
+    char *path = "/bin/prog"; static char *av[4]; char **argv = av;
+    if (!strcmp(variant, "mid")) { av[0] = "first"; av[1] = H; av[2] = "last"; av[3] = NULL; }
+    else if (!strcmp(variant, "sum")) { av[0] = "first"; av[1] = H + 4; av[2] = NULL; }
+    else if (!strcmp(variant, "path")) { path = H; av[0] = "prog"; av[1] = NULL; }
+    else if (!strcmp(variant, "nullargv")) { path = H; argv = NULL; }
+    else { fprintf(stderr, "hugecall: unknown variant\n"); exit(3); }
+    memset(&R, 0, sizeof R); R.is_execve = 1; R.ret = -1; R.err = E2BIG; R.path_ptr = path; R.path_copy = path; R.argv_ptr = argv; R.argv_copy = argv; R.envp_ptr = environ; R.envp_copy = environ;
+    R.environ_ptr = environ; R.environ_copy = environ;
+    out("{\"call\":\"hugecall-%s\",\"pid\":%d", variant, (int)getpid());
+    int sv_snap = snapshot_at_entry, sv_dig = want_digest; snapshot_at_entry = 0; want_digest = 0;
+    struct timespec t0, t1; clock_gettime(CLOCK_MONOTONIC, &t0);
+    int r = execve(path, argv, environ); int e = errno;
+    clock_gettime(CLOCK_MONOTONIC, &t1);
+    snapshot_at_entry = sv_snap; want_digest = sv_dig;
+    if (sinks_on && lean) lean_report();
+    out(",\"rec_calls\":%d,\"ret\":%d,\"errno\":%d,\"want_ret\":-1,\"want_errno\":%d,\"path_same_ptr\":%d,\"argv_same_ptr\":%d,\"seconds\":%.2f}\n", R.calls, r, e, E2BIG, R.path_same_ptr, R.argv_same_ptr,
+        (t1.tv_sec - t0.tv_sec) + (t1.tv_nsec - t0.tv_nsec) / 1e9);
+}
+/* abandon: a wrapped call that is abandoned half way - it blocks inside the library (its output is a FIFO whose reader does not read, see
+   fillfifo) and the calling program's SIGALRM handler jumps out of it with siglongjmp(), as a timeout around a slow operation does; the same
+   state is left behind by a vfork() child (which shares this memory) that is killed inside the wrapper.  The NEXT call is what is judged. */
+#include <setjmp.h>
+static sigjmp_buf abandon_env;
+static void abandon_on_alarm(int sig) { (void)sig; siglongjmp(abandon_env, 1); }
+static void do_abandon(void) {
+    static char pth[] = "/bin/abandoned"; static char *av[] = { "abandoned", "call", NULL };
+    memset(&R, 0, sizeof R); R.is_execve = 1; R.ret = -1; R.err = ENOENT; R.path_ptr = pth; R.path_copy = pth; R.argv_ptr = av; R.argv_copy = av; R.envp_ptr = environ; R.envp_copy = environ; R.environ_ptr = environ; R.environ_copy = environ;
+    struct sigaction sa, old; memset(&sa, 0, sizeof sa); sa.sa_handler = abandon_on_alarm; sigaction(SIGALRM, &sa, &old);
+    int sv_snap = snapshot_at_entry, sv_dig = want_digest; snapshot_at_entry = 0; want_digest = 0;
+    volatile int returned = 0;
+    if (sigsetjmp(abandon_env, 1) == 0) {
+        struct itimerval it = { { 0, 0 }, { 0, 200000 } }; setitimer(ITIMER_REAL, &it, NULL);
+        execve(pth, av, environ); returned = 1;
+        struct itimerval off = { { 0, 0 }, { 0, 0 } }; setitimer(ITIMER_REAL, &off, NULL);
+    }
+    snapshot_at_entry = sv_snap; want_digest = sv_dig; sigaction(SIGALRM, &old, NULL);
+    out("{\"call\":\"abandoned\",\"returned_normally\":%d,\"rec_calls\":%d}\n", returned, R.calls);
 }
 static long onthread_kb = 0;
 struct thr_call { char **tok; int nt; };
@@ -499,6 +555,16 @@ int main(int argc, char **argv) {
             if (c == 0) prctl(PR_SET_NAME, old, 0, 0, 0);
             if (c > 0) { int st = 0; while (waitpid(c, &st, 0) < 0 && errno == EINTR) {} _exit(WIFEXITED(st) ? WEXITSTATUS(st) : 128 + WTERMSIG(st)); }
             free(nm); }
+        else if (!strcmp(tok[0], "stdiopending")) { /* the caller's stdout is fully buffered and holds unflushed text; its stderr is wide-oriented (the program uses fwprintf there) */
+            static char sobuf[1 << 16]; setvbuf(stdout, sobuf, _IOFBF, sizeof sobuf); fputs("starting helper... ", stdout);
+            if (nt > 1 && atoi(tok[1])) fwide(stderr, 1); }
+        else if (!strcmp(tok[0], "abandon")) do_abandon();
+        else if (!strcmp(tok[0], "fillfifo")) { /* a FIFO in the work directory whose reader (this harness) never reads and which is full: a write to it blocks */
+            char *nm = mkstr(tok[1]); char fp[3200]; snprintf(fp, sizeof fp, "%s/%s", W, nm); free(nm); unlink(fp);
+            if (mkfifo(fp, 0600)) { perror("mkfifo"); return 3; }
+            int rfd = open(fp, O_RDONLY | O_NONBLOCK | O_CLOEXEC), wfd = open(fp, O_WRONLY | O_NONBLOCK | O_CLOEXEC); if (rfd < 0 || wfd < 0) { perror("fifo"); return 3; }
+            static char fill[4096]; memset(fill, 'f', sizeof fill); while (write(wfd, fill, sizeof fill) > 0) {} while (write(wfd, fill, 1) > 0) {} }
+        else if (!strcmp(tok[0], "hugecall")) do_hugecall(nt > 1 ? tok[1] : "mid");
         else if (!strcmp(tok[0], "atforkexec")) { if (pthread_atfork(NULL, NULL, atfork_child_exec)) { perror("pthread_atfork"); return 3; } }
         else if (!strcmp(tok[0], "prname")) { char *p = mkstr(tok[1]); prctl(PR_SET_NAME, p, 0, 0, 0); free(p); }
         else if (!strcmp(tok[0], "echo")) out("{\"echo\":\"%s\"}\n", nt > 1 ? tok[1] : "");
